@@ -4,12 +4,15 @@ import (
 	"context"
 	"fmt"
 
+	"github.com/NethermindEth/juno/core"
+	"github.com/NethermindEth/juno/core/felt"
 	"github.com/NethermindEth/juno/pruner"
 
 	"github.com/cockroachdb/pebble/v2/vfs"
 
 	"jsim/chaingen"
 	"jsim/faultdb"
+	"jsim/refstate"
 	"jsim/sim"
 	"jsim/tape"
 )
@@ -136,7 +139,15 @@ func C05(c *sim.Ctx) {
 			storing = b
 			desc = fmt.Sprintf("store block %d v%s diff=%s", b.B.Number, b.Version, diffString(b))
 			apply = func() error { return n.StoreBlock(b) }
-			if class == 2 && t.Draw("store.path", 3) == 2 {
+			if pre := b.Pre; class == 2 && pre != nil && len(pre.Classes) > 0 && t.Draw("store.resupply", 4) == 3 {
+				// the definition of an already stored class comes along once more
+				hs := refstate.SortedFelts(pre.Classes)
+				h := hs[t.Draw("store.resupply.which", len(hs))]
+				known := map[felt.Felt]core.ClassDefinition{h: pre.Classes[h].Def}
+				desc = "store (a known class supplied again) " + desc[len("store "):]
+				apply = func() error { return n.StoreBlockResupplying(b, known) }
+				c.Probe("known_class_supplied_again")
+			} else if class == 2 && t.Draw("store.path", 3) == 2 {
 				// the sequencer path: the node derives root and hash itself and does not verify them
 				// against a declared value - a fault it swallows shows as a wrong block, not as an error
 				SignedVariant(b)
